@@ -9,6 +9,7 @@
 // overwritten; every other oracle (size <= N, storage, lifetime balance, destination contents) stays exact.
 #pragma once
 #include "mc.hpp"
+#include "single_pass.hpp"
 #include "tracked.hpp"
 #include <algorithm>
 #include <cstring>
@@ -82,13 +83,14 @@ namespace c14
         K_PUSH_BACK_MOVED,          // T t(v); push_back(std::move(t))
         K_EMPLACE_BACK_RVALUE_ELEM, // emplace_back(T(v))
         K_EMPLACE_BACK_LVALUE_ELEM, // T t(v); emplace_back(t)
-        K_CTOR_RANGE_MOVE_ITER      // static_vector(std::make_move_iterator(first), std::make_move_iterator(last))
+        K_CTOR_RANGE_MOVE_ITER,     // static_vector(std::make_move_iterator(first), std::make_move_iterator(last))
+        K_CTOR_RANGE_INPUT_ITER     // static_vector(single-pass input iterator pair), see single_pass.hpp
     };
     inline const char *kname(int k)
     {
         static const char *n[] = {"push_back", "emplace_back", "erase_range", "resize", "clear", "copy_assign", "self_assign", "move_assign",
                                   "default_ctor", "copy_ctor", "move_ctor", "ctor_range_pointer", "ctor_range_list_iterator", "ctor_initlist",
-                                  "push_back_rvalue", "push_back_moved", "emplace_back_rvalue_element", "emplace_back_lvalue_element", "ctor_range_move_iterator"};
+                                  "push_back_rvalue", "push_back_moved", "emplace_back_rvalue_element", "emplace_back_lvalue_element", "ctor_range_move_iterator", "ctor_range_input_iterator"};
         return n[k];
     }
 
@@ -184,6 +186,17 @@ namespace c14
                             ops.push_back({K_CTOR_RANGE_MOVE_ITER, x, i, 0});
                     }
             }
+            for (int x = 0; x < 2; x++) // appended later still
+                if (Tr::has_range_ctor)
+                    for (int i = 0; i < (int)lists.size(); i++)
+                    {
+                        bool cyc = true;
+                        for (size_t j = 1; j < lists[i].size(); j++)
+                            if (lists[i][j] != (lists[i][j - 1] + 1) % NV)
+                                cyc = false;
+                        if (cyc || N <= 2)
+                            ops.push_back({K_CTOR_RANGE_INPUT_ITER, x, i, 0});
+                    }
             t->names.resize(ops.size());
             return t;
         }
@@ -252,6 +265,7 @@ namespace c14
             case K_CTOR_RANGE_LIST:
             case K_CTOR_IL:
             case K_CTOR_RANGE_MOVE_ITER:
+            case K_CTOR_RANGE_INPUT_ITER:
                 return mc::fmt("%s.~static_vector(); new(%s) static_vector<N=%zu> %s %s", X, X, N, kname(p.kind), vstr(lists[p.a]).c_str());
             }
             return "?";
@@ -454,6 +468,7 @@ namespace c14
             case K_CTOR_RANGE_PTR:
             case K_CTOR_RANGE_LIST:
             case K_CTOR_RANGE_MOVE_ITER:
+            case K_CTOR_RANGE_INPUT_ITER:
                 if constexpr (Tr::has_range_ctor)
                 {
                     const auto &l = lists[p.a];
@@ -461,7 +476,17 @@ namespace c14
                         mc::nontrivial();
                     destroy(p.x);
                     ctx(kname(p.kind), l.size() > N ? "longer_than_capacity" : "fits");
-                    if (p.kind == K_CTOR_RANGE_MOVE_ITER)
+                    if (p.kind == K_CTOR_RANGE_INPUT_ITER)
+                    {
+                        sp::Source src; // single pass: whatever walks the range consumes it
+                        src.values = l;
+                        sp::InputIt<T> first, last;
+                        first.src = &src;
+                        new (blk[p.x].ptr()) Vec(first, last);
+                        if (src.misuse)
+                            bad(kname(p.kind), "iterator_misuse", "the constructor dereferenced or advanced the end iterator of the input range");
+                    }
+                    else if (p.kind == K_CTOR_RANGE_MOVE_ITER)
                     {
                         std::list<T> src; // elements handed over as rvalues
                         for (int v : l)
